@@ -332,6 +332,39 @@ theorem applyG_BidInv (ret : Bool) (s s' : Sys) (a : Act) (hi : BidInv s) (ha : 
     split at ha
     · simp at ha; subst ha; exact hi
     · simp at ha
+  | cancelRPC prov =>
+    simp only [applyG] at ha
+    split at ha
+    · simp at ha
+    · split at ha
+      · simp at ha
+      · have hsafe := finStep_bidsafe s.bidStored ret prov (getParty s prov) sCanceled false
+        split at ha
+        · split at ha
+          · simp at ha; subst ha; exact hi
+          · rename_i x' es heq
+            simp at ha; subst ha
+            rw [heq] at hsafe
+            have hb := setParty_bids s prov x'
+            exact BidInv_congr _ _ (setParty_bids _ _ _)
+              (applyEffs_BidInv prov _ es (BidInv_congr _ _ hb hi) (BidSafe_congr _ _ _ hb.2 hsafe))
+        · simp at ha; subst ha; exact BidInv_congr _ _ (setParty_bids _ _ _) hi
+  | completeRPC prov =>
+    simp only [applyG] at ha
+    split at ha
+    · simp at ha
+    · split at ha
+      · simp at ha
+      · have hsafe := finStep_bidsafe s.bidStored ret prov (getParty s prov) sCompleted false
+        split at ha
+        · split at ha
+          · simp at ha; subst ha; exact hi
+          · rename_i x' es heq
+            simp at ha; subst ha
+            rw [heq] at hsafe
+            have hb := setParty_bids s prov x'
+            exact applyEffs_BidInv prov _ es (BidInv_congr _ _ hb hi) (BidSafe_congr _ _ _ hb.2 hsafe)
+        · simp at ha; subst ha; exact BidInv_congr _ _ (setParty_bids _ _ _) hi
 
 theorem runG_BidInv (ret : Bool) (as : List Act) : ∀ s s', BidInv s → runG ret s as = some s' → BidInv s' := by
   induction as with
